@@ -305,7 +305,7 @@ def canon_titem(t):
 def canon_load_model(v, c):
     res, trace, dig, rbs = v
     out = {"LOk": ["ok"], "LOther": ["other"]}.get(res[0]) or ["routererror"] + list(res[1:])
-    digest = [[xy[0], xy[1], [[[i, list(s)] for i, s in d[0]], [list(b) for b in d[1]], d[2], d[3]]]
+    digest = [[xy[0], xy[1], [[[i, list(s)] for i, s in d[0]], [list(b) for b in d[1]], d[2]]]
               for xy, d in dig]
     readback = []
     for (x, y, _), (r, t) in zip(c["chips"], rbs):
@@ -323,6 +323,8 @@ def canon_load_impl(o):
     if o["outcome"][0] == "other":
         o["outcome"] = ["other"]
     o["readback"] = [[x, y, (["other"] if r[0] == "other" else r), t] for x, y, r, t in o["readback"]]
+    o["digest"] = [[x, y, d[:3]] for x, y, d in o["digest"]]        # d[3] (checksum of the whole router copy) is
+    #                                                               # for the oracle; the model shows it on read-back
     return o
 
 
